@@ -420,6 +420,10 @@ func (e *envT) step(w *world, pre *node, ro bool, o opDef, where string) stepOut
 	}
 	so.node = nn
 	fileI := fileIdx(o.File)
+	fpKind := o.Kind // operation class used in fingerprints: the three unlock forms share UnlockFileById
+	if strings.HasPrefix(fpKind, "unlock") {
+		fpKind = "unlock"
+	}
 	postHead := post.ref(u, "refs/heads/"+post.branch(u))
 
 	// model bookkeeping (dirty / merged) and hook scopes
@@ -545,12 +549,6 @@ func (e *envT) step(w *world, pre *node, ro bool, o opDef, where string) stepOut
 	if post.U[u].CacheOK != "" {
 		so.viol("C16:cache:corrupt", fmt.Sprintf("%s\nthen `%s`: %s", where, cmd, post.U[u].CacheOK), nil)
 	}
-	devTag := ""
-	if hits > 0 {
-		devTag = ":fault"
-	} else if o.Page {
-		devTag = ":paged"
-	}
 	gotM := map[string]cacheEnt{}
 	for _, c := range got {
 		gotM[c.Path] = c
@@ -586,7 +584,7 @@ func (e *envT) step(w *world, pre *node, ro bool, o opDef, where string) stepOut
 			cls = append(cls, c)
 		}
 		sort.Strings(cls)
-		fk := o.Kind
+		fk := fpKind
 		if hits == 0 && fk == "locks-verify-json" {
 			fk = "locks-verify" // same code path unless the call fails
 		}
@@ -600,7 +598,7 @@ func (e *envT) step(w *world, pre *node, ro bool, o opDef, where string) stepOut
 			map[string]interface{}{"stdout": clip(res.Out, 400), "stderr": clip(res.Err, 600)})
 	}
 	if fmt.Sprint(post.U[v].Cache) != fmt.Sprint(pre.obs.U[v].Cache) {
-		so.viol("C16:cache:"+o.Kind+":other-users-cache-changed", fmt.Sprintf("%s\nthen `%s` by %s changed the lock cache of %s: %v -> %v", where, cmd, users[u], users[v], pre.obs.U[v].Cache, post.U[v].Cache), nil)
+		so.viol("C16:cache:"+fpKind+":other-users-cache-changed", fmt.Sprintf("%s\nthen `%s` by %s changed the lock cache of %s: %v -> %v", where, cmd, users[u], users[v], pre.obs.U[v].Cache, post.U[v].Cache), nil)
 	}
 
 	// ---- clause 2a: write bits
@@ -616,7 +614,9 @@ func (e *envT) step(w *world, pre *node, ro bool, o opDef, where string) stepOut
 	if ro {
 		if strings.HasPrefix(o.Kind, "unlock") {
 			for _, r := range released {
-				if lockable(r.Path) && !held(r.Path) {
+				// the server has at most one lock per path: after a release of the lock on r.Path nobody holds it,
+				// whatever an older (stale) record of the user says
+				if lockable(r.Path) {
 					must[r.Path] = false
 				}
 			}
@@ -642,7 +642,7 @@ func (e *envT) step(w *world, pre *node, ro bool, o opDef, where string) stepOut
 				if !want {
 					state = "not-held-but-writable"
 				}
-				so.viol("C16:write-bit:"+o.Kind+":"+state,
+				so.viol("C16:write-bit:"+fpKind+":"+state,
 					ctx()+fmt.Sprintf("%s must be %s afterwards (own locks now: %v) but its mode is writable=%v", f, map[bool]string{true: "writable", false: "read-only"}[want], keys(expect), postW),
 					map[string]interface{}{"stderr": clip(res.Err, 400)})
 			}
@@ -653,11 +653,11 @@ func (e *envT) step(w *world, pre *node, ro bool, o opDef, where string) stepOut
 		}
 		switch {
 		case !lockable(f):
-			so.viol("C16:write-bit:"+o.Kind+":non-lockable-file-changed", ctx()+fmt.Sprintf("write bit of the non-lockable %s changed %v -> %v", f, preW, postW), nil)
+			so.viol("C16:write-bit:"+fpKind+":non-lockable-file-changed", ctx()+fmt.Sprintf("write bit of the non-lockable %s changed %v -> %v", f, preW, postW), nil)
 		case !ro && !postW:
-			so.viol("C16:write-bit:"+o.Kind+":made-read-only-although-feature-off", ctx()+fmt.Sprintf("%s was made read-only", f), nil)
+			so.viol("C16:write-bit:"+fpKind+":made-read-only-although-feature-off", ctx()+fmt.Sprintf("%s was made read-only", f), nil)
 		case postW != held(f):
-			so.viol("C16:write-bit:"+o.Kind+":changed-away-from-lock-state", ctx()+fmt.Sprintf("write bit of %s changed %v -> %v although %s holds %v", f, preW, postW, users[u], keys(expect)), nil)
+			so.viol("C16:write-bit:"+fpKind+":changed-away-from-lock-state", ctx()+fmt.Sprintf("write bit of %s changed %v -> %v although %s holds %v", f, preW, postW, users[u], keys(expect)), nil)
 		}
 	}
 	if !ro {
@@ -665,7 +665,7 @@ func (e *envT) step(w *world, pre *node, ro bool, o opDef, where string) stepOut
 	}
 	for i, f := range wfiles {
 		if pre.obs.U[v].W[i] != post.U[v].W[i] || pre.obs.U[v].Content[i] != post.U[v].Content[i] {
-			so.viol("C16:write-bit:"+o.Kind+":other-clone-changed", fmt.Sprintf("%s\nthen `%s` by %s changed %s in the clone of %s", where, cmd, users[u], f, users[v]), nil)
+			so.viol("C16:write-bit:"+fpKind+":other-clone-changed", fmt.Sprintf("%s\nthen `%s` by %s changed %s in the clone of %s", where, cmd, users[u], f, users[v]), nil)
 		}
 	}
 
@@ -675,7 +675,7 @@ func (e *envT) step(w *world, pre *node, ro bool, o opDef, where string) stepOut
 			so.counters["clause3_unlock_of_modified_file_evaluations"]++
 			so.evals++
 			if post.tableAt(o.File) == nil || post.tableAt(o.File).ID != l.ID {
-				so.viol("C16:unlock-released-modified-file:"+o.Kind+devTag,
+				so.viol("C16:unlock-released-modified-file:"+o.Kind+map[bool]string{true: ":fault", false: ""}[hits > 0],
 					fmt.Sprintf("%s\nthen `%s` (exit %d) as %s while %s has uncommitted changes: the server released lock %s of %s (held by %s) although --force was not given\nstdout: %s\nstderr: %s",
 						where, cmd, res.Code, users[u], o.File, l.ID, l.Path, l.Owner, clip(res.Out, 300), clip(res.Err, 300)), nil)
 			}
@@ -1228,9 +1228,6 @@ func (e *envT) bfs(p *partDef, deadline time.Time) (*vx.Stats, bfsInfo) {
 				if !was || nn.devs < old {
 					seen[p.key(nn.obs)] = nn.devs
 					next = append(next, nn)
-					if os.Getenv("C16_DEBUG") != "" {
-						fmt.Printf("NEW depth=%d %v\n  %s\n", depth+1, p.names(path), strings.ReplaceAll(nn.obs.canon([2]int{0, 1}), "\n", "\n  "))
-					}
 					if !was {
 						newStates++
 					}
@@ -1314,7 +1311,28 @@ func TestVerifC16(t *testing.T) {
 	e := newEnv(c)
 	defer e.close()
 	w0 := <-e.pool
-	base := e.buildBase(w0)
+	// world construction with the real tools; a tool timeout here (overloaded machine) is retried, never an observation
+	gitx.CmdTimeout = 150 * time.Second
+	var base snap
+	for attempt := 1; ; attempt++ {
+		var failure interface{}
+		func() {
+			defer func() { failure = recover() }()
+			base = e.buildBase(w0)
+		}()
+		if failure == nil {
+			break
+		}
+		if attempt == 3 {
+			fmt.Printf("TOOL-ERROR property=C16 cannot construct the base world: %v\n", failure)
+			os.Exit(2)
+		}
+		fmt.Printf("note: world construction attempt %d failed (%v); retrying\n", attempt, clip(fmt.Sprint(failure), 200))
+		w0.invalidate()
+		os.RemoveAll(filepath.Join(w0.root, "seed"))
+		w0.restore(snap{files: map[string]*ent{}, objs: map[string][]byte{}})
+	}
+	gitx.CmdTimeout = 60 * time.Second
 	mkInit := func(verify string, ro bool) initState { return e.variant(w0, base, verify, ro) }
 	iTrueOn := mkInit("true", true)
 	if msg := e.selfCheck(w0, iTrueOn); msg != "" {
@@ -1373,7 +1391,7 @@ func TestVerifC16(t *testing.T) {
 			{Name: "locks", Inits: []initState{iTrueOn}, Ops: locksAlphabet(false, false), MaxDepth: 3, MaxDevs: 0, Share: 35, Sym: true},
 			{Name: "locks-faults", Inits: []initState{iTrueOn, iP1Q2}, Ops: faultAlphabet(false), MaxDepth: 2, MaxDevs: 1, Share: 20, Sym: true},
 			{Name: "locks-readonly-off", Inits: []initState{iTrueOff}, Ops: locksAlphabet(false, false), MaxDepth: 2, MaxDevs: 0, Share: 7, Sym: true},
-			{Name: "push", Inits: []initState{iTrueOn, iP1Q2, iP2Q1}, Ops: pushAlphabet(false, []int{1}, true), MaxDepth: 3, MaxDevs: 1, Share: 33},
+			{Name: "push", Inits: []initState{iTrueOn, iP1Q2, iP2Q1}, Ops: pushAlphabet(false, []int{1}, true), MaxDepth: 4, MaxDevs: 1, Share: 33},
 			{Name: "push-verify-unset-or-false", Inits: []initState{iUnsetP1, iFalseP1}, Ops: pushMini(1), MaxDepth: 3, MaxDevs: 0, Share: 5},
 		}
 	}
@@ -1436,7 +1454,7 @@ func TestVerifC16(t *testing.T) {
 		os.Exit(2)
 	}
 
-	deadline := c.DeadlineAfter(150*time.Second, 22*time.Minute)
+	deadline := c.DeadlineAfter(140*time.Second, 21*time.Minute)
 	only := os.Getenv("VERIF_ONLY")
 	var vparts []vx.Part
 	var infos []bfsInfo
